@@ -68,4 +68,24 @@ CHECKS = {
             {"pkg": "internal/spynode", "test": "TestVerif_C08"},
         ],
     },
+    "C15": {
+        "level": "exploration",
+        "technique": "runtime monitoring: round-trip / exact-consumption / all-prefixes monitor over generated values of every wire message type and of the stored transaction record",
+        "level_text": "For each of the 37 message types hundreds (thorough: tens of thousands) of generated values with boundary integers at every varint width, empty and long lists and optional fields are encoded, decoded from a reader with trailing sentinel bytes, re-encoded and compared structurally; every strict prefix of every encoding must fail with an error; random concatenations must decode to the same sequence and stop at EOF; the type/name/payload table is checked for bijection; the stored tx record is round-tripped through the storage functions. Exploration: the value space is unbounded, generators are boundary-heavy.",
+        "level_note": "Trusted: reflect-based structural equality (nil == empty slice), dependency encoders of wire.MsgTx / merkle_proof / bsor. Three payloads holding dependency types are compared by re-encoding only.",
+        "runs": [
+            {"pkg": "pkg/client", "test": "TestVerif_C15"},
+            {"pkg": "internal/storage", "test": "TestVerif_C15Store"},
+        ],
+    },
+    "C20": {
+        "level": "exploration",
+        "technique": "runtime monitoring: child-process crash/allocation monitor (address-space limit, per-input heap accounting) over mutated valid encodings and random bytes",
+        "level_text": "Every decoder of the client protocol and every stored-record loader is fed valid encodings with maximal varints / fixed-width maxima spliced in at every byte offset, random bytes behind every type code and noise; decoding runs in a probe child under a 3 GiB address-space limit which reports the outcome and the bytes allocated, and the parent attributes a death to the input in flight. Findings: panic, process-fatal error, allocation above 1 MiB + 64*len(input). Exploration: the byte-string space is unbounded; the mutation set targets every count/length field of every format.",
+        "level_note": "Trusted: runtime.ReadMemStats TotalAlloc as the allocation measure, the crash parser that extracts the dying function from the child's stderr. Decoders of dependencies (wire.MsgTx, bitcoin.Signature, bsor) are reached through spynode's decoders and findings inside them are attributed to the dependency frame.",
+        "runs": [
+            {"pkg": "pkg/client", "test": "TestVerif_C20"},
+            {"pkg": "internal/storage", "test": "TestVerif_C20Store"},
+        ],
+    },
 }
